@@ -7,6 +7,7 @@ import re
 from ..absint import ExtRef, Interp, Tup
 from ..domains.homog import HP, HomogDomain, Lin, cs_form, poly_degree, symmetric_preprocessing, subst_src
 from ..repo import calls_in, dotted, norm_src, walk_no_nested
+from ..match import Matcher, src as msrc
 from .common import kwarg, need_funcs
 from .C09 import halves_clause, rng_clause
 
@@ -47,18 +48,22 @@ def formula_clause(model, rep, funcs):
         rep.ob("H", fn.anchor if fn else f.anchor, "added terms have equal degree", False, msg, node=node, fn=fn or f, clause="formula")
     # layout: spectra and radius grid are both fftshift-ed (or neither)
     src = norm_src(f.node)
-    spectra = [n for n in walk_no_nested(f.node) if isinstance(n, ast.Assign) and norm_src(n.targets[0]) in ("f0", "f1")]
-    sp_shift = [("fftshift" in norm_src(n.value)) for n in spectra]
-    grid_shift = "fftshift(np.fft.fftfreq(s" in src or "fftshift(fftfreq(s" in src
-    grid_plain = ("fftfreq(s" in src) and not grid_shift
-    ok = len(spectra) == 2 and len(set(sp_shift)) == 1 and ((sp_shift[0] and grid_shift) or (not sp_shift[0] and grid_plain))
+    M = Matcher(f)
+    shifted = M.all_of(["$f0 = np.fft.fftshift(fftn(img0))", "$f1 = np.fft.fftshift(fftn(img1))"])[0]
+    plain = M.all_of(["$f0 = fftn(img0)", "$f1 = fftn(img1)"])[0]
+    bg: dict = {}
+    grid_shift = M.has("$freqs = np.meshgrid(*[np.fft.fftshift(np.fft.fftfreq($s, d=1.0)) for $s in $$shape], indexing='ij')", bg)
+    grid_plain = (not grid_shift) and M.has("$freqs = np.meshgrid(*[np.fft.fftfreq($s, d=1.0) for $s in $$shape], indexing='ij')", bg)
+    sp_shift = [shifted, shifted] if (shifted or plain) else []
+    ok = (shifted and grid_shift) or (plain and grid_plain)
     rep.instance("L.fsc", f.loc())
-    rep.ob("L", f.anchor, "the shell-label grid and both spectra are in the same FFT layout (all fftshift-ed, or none)", ok,
+    rep.ob("L", f.anchor, "the shell-label grid and both spectra are in the same FFT layout (all fftshift-ed, or none)", bool(ok),
            f"spectra shifted: {sp_shift}; frequency grid shifted: {grid_shift}", node=f.node, fn=f, clause="layout", stmt="fsc layout")
-    lab = [n for n in walk_no_nested(f.node) if isinstance(n, ast.Assign) and norm_src(n.targets[0]) == "labels"]
-    okl = bool(lab) and "r / dfreq" in norm_src(lab[0].value)
-    rep.ob("L", f.anchor, "shell label = floor(|f| / dfreq) with |f| in cycles per pixel", okl and "np.sqrt(sum((f ** 2 for f in freqs)))" in src,
-           norm_src(lab[0].value) if lab else "", node=f.node, fn=f, clause="layout", stmt="fsc labels")
+    okl = bool(grid_shift or grid_plain) and M.all_of(["$r = np.sqrt(sum($f ** 2 for $f in $freqs))", "$lab = ($r / dfreq).astype($$t)"], bg)[0]
+    okshape = "shape" in bg and msrc(M.expr(bg["shape"][1])) in ("img0.shape", "img1.shape")
+    okl = okl and okshape
+    rep.ob("L", f.anchor, "shell label = floor(|f| / dfreq) with |f| in cycles per pixel", okl,
+           "", node=f.node, fn=f, clause="layout", stmt="fsc labels")
 
 
 def _alias_members(model, fn, ann_txt: str) -> set[str]:
@@ -163,12 +168,18 @@ def loader_clause(model, rep, funcs):
         if ok:
             c = calls[0]
             a0, a1 = norm_src(c.args[0]), norm_src(c.args[1])
-            ok = a0 == "img0 * _mask" and a1 == "img1 * _mask"
-            det = f"fourier_shell_correlation({a0}, {a1}, ...)"
-            unp = [n for n in ast.walk(f.node) if isinstance(n, ast.Assign) and isinstance(n.targets[0], ast.Tuple) and [norm_src(e) for e in n.targets[0].elts] == ["img0", "img1"]]
-            ok = ok and len(unp) == 1 and norm_src(unp[0].value) in ("halves[i]", "img[i]")
-            df = kwarg(c, "dfreq")
-            ok = ok and df is not None and norm_src(df) in ("dfq", "dfreq")
+            ML = Matcher(f)
+            bl: dict = {}
+            ok, why = ML.all_of(["for $i in range(n_set):\n    ...", "$a, $b = $h[$i]",
+                                 "$fr, $fs = _utils.fourier_shell_correlation($a * $m, $b * $m, dfreq=$$df)"], bl)
+            det = why or f"fourier_shell_correlation({a0}, {a1}, ...)"
+            if ok:
+                # the half-maps come from average_split of this loader, the sampling step from the dfreq argument
+                hsrc = msrc(ML.expr(bl["h"][1]))
+                ok = "average_split(" in hsrc or ML.has("$h = self.average_split(...)", bl)
+                dfs = msrc(ML.expr(bl["df"][1]))
+                ok = ok and "dfreq" in dfs
+                det = f"half-maps `{hsrc[:60]}`; dfreq `{dfs[:60]}`"
         rep.ob("S11", a, "FSC is computed between the two half-maps of split i, both multiplied by the same mask", ok, det, node=f.node, fn=f, clause="loader level",
                stmt=f"fsc call ({a})")
         sp = [c for c in calls_in(f) if isinstance(c.func, ast.Attribute) and c.func.attr == "average_split" and norm_src(c.func.value) == "self"]
